@@ -175,7 +175,7 @@ func readWith(read func() (*smf.SMF, error)) (R, uint64, int64) {
 	select {
 	case x := <-ch:
 		return x.r, x.alloc, time.Since(t0).Milliseconds()
-	case <-time.After(10 * time.Second):
+	case <-time.After(30 * time.Second):
 		// the call never came back: its goroutine keeps running (possibly spinning); the commands stop generating after
 		// recording this outcome (hungReads), one non-terminating read is enough to report
 		atomic.AddInt32(&hungReads, 1)
@@ -373,7 +373,7 @@ func tracksProbe(data []byte) (mem, file string) {
 		select {
 		case x := <-ch:
 			return x
-		case <-time.After(10 * time.Second):
+		case <-time.After(30 * time.Second):
 			atomic.AddInt32(&hungReads, 1)
 			return "timeout"
 		}
